@@ -144,7 +144,32 @@ class StmtMixin:
         return self.lift(self.ev(s.value, p), lambda q, v: [(q, NEXT)])
 
     def ex_yield(self, node, p):
-        raise Unsupported("yield outside generator mode")
+        """`yield v` in a generator under an iterator contract: (1) the yield obligations must hold, (2) ghost
+        update, (3) the consumer and any other code run: the heap is havocked subject to the rely condition."""
+        fn = p.frame.fn
+        ys = getattr(fn, "yield_spec", None)
+        if ys is None or isinstance(node, ast.YieldFrom):
+            raise Unsupported("yield outside an iterator contract")
+
+        def k(q, v):
+            env = {"yielded": v}
+            for i, sp in enumerate(ys.get("ensures", [])):
+                goal = self.spec_bool(sp, q, env)
+                self.oblige(q, goal, "yield", f"L{node.lineno}#{i}")
+                q.assume(goal)
+            if ys.get("ghost"):
+                self.run_ghost(q, ys["ghost"])
+            pre = (dict(q.heap), q.epoch)
+            self.havoc_for_spec(q, ys.get("modifies"))
+            q.old_heaps.append(pre)
+            for sp in ys.get("rely", []):
+                q.assume(self.spec_bool(sp, q, env))
+            q.old_heaps.pop()
+            q.ghost["$yields"] = q.ghost.get("$yields", 0) + 1
+            return [(q, NEXT)]
+        if node.value is None:
+            return k(p, VNone())
+        return self.lift(self.ev(node.value, p), k)
 
     def ex_Return(self, s, p):
         if s.value is None:
